@@ -368,3 +368,253 @@ def accept_cct_k2(mc: int, p1: int, t1: int, p2: int, t2: int) -> bool:
     post: _
     """
     return _cell([1, 1, 0], mc, [(p1, t1), (p2, t2)], "C33")
+
+
+# =================================================================================================
+# Launcher half: launch() and gc_state_dir() of vgi_rpc/launcher.py under every schedule.
+# The real source of both functions is rewritten (coop); the environment is a small world model:
+# FileLock := one mutex per lock path (Timeout when acquired with timeout 0 while held);
+# _probe / _spawn_worker / socket and meta files := an in-memory directory with live workers.
+# Added after a seeded change to gc_state_dir (probe before taking the entry's lock, no re-probe)
+# showed that the "launch half" of C33 had no check at all.
+# =================================================================================================
+
+from vgi_rpc import launcher as ln  # noqa: E402
+
+
+class _LWorld:
+    def __init__(self) -> None:
+        self.fs: dict[str, object] = {}  # path -> "meta" | "stale-socket" | worker id (int)
+        self.workers: list[str] = []  # worker id -> socket path it was spawned on
+        self.locks: dict[str, coop.CoopLock] = {}
+        self.bad: list[str] = []
+        self.returned: list[str] = []
+
+    def reachable(self, path: str) -> bool:
+        return isinstance(self.fs.get(path), int)
+
+
+_LW: list[_LWorld] = []
+
+
+class _FPath:
+    """Just enough of pathlib.Path for launch()/gc_state_dir(), backed by the world's directory."""
+
+    def __init__(self, s: str) -> None:
+        self.s = s
+
+    def __truediv__(self, name: str) -> "_FPath":
+        return _FPath(self.s + "/" + name)
+
+    def __str__(self) -> str:
+        return self.s
+
+    def __fspath__(self) -> str:
+        return self.s
+
+    def __lt__(self, other: "_FPath") -> bool:
+        return self.s < other.s
+
+    @property
+    def stem(self) -> str:
+        return self.s.rsplit("/", 1)[-1].rsplit(".", 1)[0]
+
+    def mkdir(self, parents: bool = False, exist_ok: bool = False) -> None:
+        return None
+
+    def glob(self, pattern: str):  # type: ignore[no-untyped-def]
+        suffix = pattern.lstrip("*")
+        return [_FPath(p) for p in list(_LW[-1].fs) if p.startswith(self.s + "/") and p.endswith(suffix)]
+
+
+class _FLock:
+    def __init__(self, path: str, timeout: float = -1) -> None:
+        self.path, self.timeout = path, timeout
+        w = _LW[-1]
+        self.lock = w.locks.setdefault(path, coop.CoopLock())
+
+    def co_acquire(self):  # generator (cooperative)
+        if self.timeout == 0.0:
+            if self.lock.owner is not None:
+                raise ln.Timeout(self.path)
+            self.lock.owner = coop.sched().current
+            return None
+        yield from self.lock.co_acquire()
+        return None
+
+    def acquire(self) -> None:
+        raise coop.HarnessModelError("FileLock.acquire reached outside the rewritten code")
+
+    def release(self) -> None:
+        self.lock.release()
+
+
+coop._PRIMITIVE_METHODS[(_FLock, "acquire")] = "co_acquire"
+
+
+def _l_probe(path) -> bool:  # type: ignore[no-untyped-def]
+    return _LW[-1].reachable(str(path))
+
+
+def _l_spawn(argv, sock_path, idle_timeout, worker_stderr, startup_timeout):  # type: ignore[no-untyped-def]
+    w = _LW[-1]
+    # "at most one worker per command hash while one is alive": workers never exit in this model, so a
+    # second spawn on the same path is a second live worker for the same hash
+    if sock_path in w.workers:
+        w.bad.append("second-worker-spawned-while-first-alive")
+    w.workers.append(sock_path)
+    w.fs[sock_path] = len(w.workers) - 1
+
+    class _P:
+        pid = 1000 + len(w.workers)
+
+    return _P()
+
+
+def _l_unlink_stale(path) -> None:  # type: ignore[no-untyped-def]
+    _LW[-1].fs.pop(str(path), None)
+
+
+def _l_write_meta(meta_path, argv, cwd, sock_path) -> None:  # type: ignore[no-untyped-def]
+    _LW[-1].fs[str(meta_path)] = "meta"
+
+
+class _OsShim:
+    @staticmethod
+    def unlink(p) -> None:  # type: ignore[no-untyped-def]
+        w = _LW[-1]
+        if str(p) not in w.fs:
+            raise FileNotFoundError(str(p))
+        del w.fs[str(p)]
+
+    @staticmethod
+    def getcwd() -> str:
+        return "/cwd"
+
+
+_L_OVR = {
+    "FileLock": _FLock,
+    "_probe": _l_probe,
+    "_spawn_worker": _l_spawn,
+    "_unlink_stale_socket": _l_unlink_stale,
+    "_require_socket_or_absent": lambda p: None,
+    "_write_meta": _l_write_meta,
+    "compute_hash": lambda argv, cwd=None: str(argv[0]),
+    "Path": _FPath,
+    "os": _OsShim,
+    "signal": object(),
+}
+L_UNIT = coop.Unit([ln.launch, ln.gc_state_dir], globals_overrides=_L_OVR)
+_LAUNCH = L_UNIT.twin(ln.launch)
+
+
+@coop._mark
+def _t_launch(world, hash_id):  # type: ignore[no-untyped-def]
+    cfg = ln.LaunchConfig(worker_argv=[hash_id], state_dir="/state")
+    path = yield from coop._cc(_LAUNCH, cfg)
+    world.returned.append(path)
+    if not world.reachable(path):
+        world.bad.append("launch-returned-unreachable-path")
+    return path
+
+
+def _l_scenario(hashes: list[str], stale_x: int, first: int, pre):  # type: ignore[no-untyped-def]
+    s = coop.Scheduler(max_steps=900, untraced=True)
+    world = _LWorld()
+    _LW.append(world)
+    try:
+        sx = coop.Scheduler._concretize(stale_x, 0, 2)
+        if sx >= 1:  # hash X has a left-over entry: meta (+ dead socket file)
+            world.fs["/state/X.meta"] = "meta"
+        if sx == 2:
+            world.fs["/state/X.sock"] = "stale-socket"
+        for h in hashes:
+            s.spawn(_t_launch, world, h)
+        s.run(first, pre)
+        return s, world
+    finally:
+        s.close()
+        _LW.pop()
+
+
+def _l_problems(s, world) -> list[str]:  # type: ignore[no-untyped-def]
+    bad = list(world.bad)
+    if s.deadlocked:
+        bad.append("deadlock")
+    for t in s.threads:
+        if t.exc is not None:
+            bad.append("exception:" + type(t.exc).__name__)
+    # every path a launch returned still leads to a live worker when all launches are done
+    for p in world.returned:
+        if not world.reachable(p):
+            bad.append("returned-worker-made-unreachable")
+    return sorted(set(bad))
+
+
+def _l_sig(hashes):  # type: ignore[no-untyped-def]
+    def sig(a: dict, conc) -> str:  # type: ignore[no-untyped-def]
+        f = a["first"]
+        pre = [(a["p1"], a.get("t1", 1 - f))] + ([(a["p2"], a.get("t2", f))] if "p2" in a else [])
+        s, w = _l_scenario(hashes, a["stale_x"], f, pre)
+        bad = _l_problems(s, w)
+        return "C33:launcher:" + (bad[0] if bad else "none")
+
+    return sig
+
+
+_LB = "launch() calls for command hashes %s with the opportunistic gc_state_dir pass of each; hash X initially absent / stale meta / stale meta+socket; symbolic start + %d preemption(s) at any statement"
+
+
+@cond(q=150, t=400, engine="coop", encoded=[ln.launch, ln.gc_state_dir], stubs=["FileLock := one mutex per lock path", "_probe/_spawn_worker/state dir := in-memory world with live workers that never exit"],
+      bound=_LB % ("X, X", 1), signature=_l_sig(['X', 'X']))
+def launchers_xx_k1(stale_x: int, first: int, p1: int) -> bool:
+    """
+    pre: 0 <= stale_x <= 2 and 0 <= first <= 1 and 0 <= p1 <= 90
+    post: _
+    """
+    s, w = _l_scenario(['X', 'X'], stale_x, first, [(p1, 1 - first)])
+    return not [b for b in _l_problems(s, w) if not is_open("C33:launcher:" + b)]
+
+
+@cond(q=150, t=400, engine="coop", encoded=[ln.launch, ln.gc_state_dir], stubs=["FileLock := one mutex per lock path", "_probe/_spawn_worker/state dir := in-memory world with live workers that never exit"],
+      bound=_LB % ("X, Y", 1), signature=_l_sig(['X', 'Y']))
+def launchers_xy_k1(stale_x: int, first: int, p1: int) -> bool:
+    """
+    pre: 0 <= stale_x <= 2 and 0 <= first <= 1 and 0 <= p1 <= 90
+    post: _
+    """
+    s, w = _l_scenario(['X', 'Y'], stale_x, first, [(p1, 1 - first)])
+    return not [b for b in _l_problems(s, w) if not is_open("C33:launcher:" + b)]
+
+
+@cond(q=150, t=400, engine="coop", encoded=[ln.launch, ln.gc_state_dir], stubs=["FileLock := one mutex per lock path", "_probe/_spawn_worker/state dir := in-memory world with live workers that never exit"],
+      bound=_LB % ("Y, X", 1), signature=_l_sig(['Y', 'X']))
+def launchers_yx_stale_k1(stale_x: int, first: int, p1: int) -> bool:
+    """
+    pre: 0 <= stale_x <= 2 and 0 <= first <= 1 and 0 <= p1 <= 90
+    post: _
+    """
+    s, w = _l_scenario(['Y', 'X'], stale_x, first, [(p1, 1 - first)])
+    return not [b for b in _l_problems(s, w) if not is_open("C33:launcher:" + b)]
+
+
+@cond(q=150, t=1500, tiers=("thorough",), engine="coop", encoded=[ln.launch, ln.gc_state_dir], stubs=["FileLock := one mutex per lock path", "_probe/_spawn_worker/state dir := in-memory world with live workers that never exit"],
+      bound=_LB % ("X, X, Y", 1), signature=_l_sig(["X", "X", "Y"]))
+def launchers_xxy_k1(stale_x: int, first: int, p1: int, t1: int) -> bool:
+    """
+    pre: 0 <= stale_x <= 2 and 0 <= first <= 2 and 0 <= t1 <= 2 and 0 <= p1 <= 110
+    post: _
+    """
+    s, w = _l_scenario(["X", "X", "Y"], stale_x, first, [(p1, t1)])
+    return not [b for b in _l_problems(s, w) if not is_open("C33:launcher:" + b)]
+
+
+@cond(q=150, t=3000, tiers=("thorough",), engine="coop", encoded=[ln.launch, ln.gc_state_dir], stubs=["FileLock := one mutex per lock path", "_probe/_spawn_worker/state dir := in-memory world with live workers that never exit"],
+      bound=_LB % ("X, Y", 2), signature=_l_sig(["X", "Y"]))
+def launchers_xy_k2(stale_x: int, first: int, p1: int, p2: int) -> bool:
+    """
+    pre: 0 <= stale_x <= 2 and 0 <= first <= 1 and 0 <= p1 < p2 <= 90
+    post: _
+    """
+    s, w = _l_scenario(["X", "Y"], stale_x, first, [(p1, 1 - first), (p2, first)])
+    return not [b for b in _l_problems(s, w) if not is_open("C33:launcher:" + b)]
